@@ -66,31 +66,20 @@ impl Remover {
         let mut merged_ranges = Vec::new();
         let mut range_cursor = 0;
         for (range, idx) in ranges {
-            let item = {
-                // Pop item from pending_ranges
-                if range_cursor < ranges_pending.len() {
-                    let (pending_range, idx) = &ranges_pending[range_cursor];
+            // Pop every pending range that starts before the end of this range
+            while range_cursor < ranges_pending.len() {
+                let (pending_range, idx) = &ranges_pending[range_cursor];
 
-                    if pending_range.start < range.end {
-                        range_cursor += 1;
-
-                        let can_squash = range.contains(&pending_range.start)
-                            && range.contains(&pending_range.end);
-                        if can_squash {
-                            None
-                        } else {
-                            Some((pending_range.clone(), *idx))
-                        }
-                    } else {
-                        None
-                    }
-                } else {
-                    None
+                if pending_range.start >= range.end {
+                    break;
                 }
-            };
+                range_cursor += 1;
 
-            if let Some(item) = item {
-                merged_ranges.push((item, false));
+                let can_squash =
+                    range.contains(&pending_range.start) && range.contains(&pending_range.end);
+                if !can_squash {
+                    merged_ranges.push(((pending_range.clone(), *idx), false));
+                }
             }
 
             merged_ranges.push(((range.clone(), idx), true));
